@@ -5,6 +5,7 @@ pub mod mat;
 pub mod refm;
 pub mod mc;
 pub mod rep;
+pub mod shapes;
 
 pub use rep::{h64, hmix, Acc, Report};
 
